@@ -5,8 +5,12 @@ import copy
 
 from . import gen
 
-_SNAMES = [("time", "datetime"), ("time", "int"), ("t", "float"), ("year", "int"), ("time", "str")]
-_FNAMES = [("lat", "lat"), ("lon", "float"), ("x", "int"), ("y", "float"), ("loc", "str"), ("lev", "int")]
+# (dimension names that collide with xeofs' own internal names - "sample", "feature" - or that are unusual but
+#  legal - blanks, non-ASCII - are part of "whatever metadata the user's data carried")
+_SNAMES = [("time", "datetime"), ("time", "int"), ("t", "float"), ("year", "int"), ("time", "str"),
+           ("time", "datetime"), ("time", "int"), ("sample", "int"), ("my time", "int")]
+_FNAMES = [("lat", "lat"), ("lon", "float"), ("x", "int"), ("y", "float"), ("loc", "str"), ("lev", "int"),
+           ("lat", "lat"), ("lon", "float"), ("x", "int"), ("feature", "int"), ("grid cell", "float"), ("L\u00e4nge", "float")]
 
 
 def draw_layout(rng, **kw) -> dict:
@@ -48,6 +52,8 @@ def _draw_layout(rng, *, max_features=12, min_samples=14, max_samples=30, allow_
             fd = copy.deepcopy(first)
         else:
             names = rng.sample(_FNAMES, 2)
+            while names[0][0] == names[1][0]:
+                names = rng.sample(_FNAMES, 2)
             if rng.random() < 0.5 and share >= 4:
                 a = rng.randint(2, max(2, min(4 if max_features <= 12 else 6, share // 2)))
                 b = rng.randint(2, max(2, share // a))
